@@ -61,4 +61,6 @@ MUTANTS = [
     m("c12-twin-catch-error-base", None, T, "            except IntegratorError as e:\n                _process_integrator_error(e, stats)\n                terminate, tree, proposal = True, None, None", "            except Error as e:\n                _process_integrator_error(e, stats)\n                terminate, tree, proposal = True, None, None", twin=True),
     {"id": "c12-undo-F22", "prop": "C12", "rule": "R9", "key": "foreign-exception-escapes", "edits": [{"file": "integrators.py", "old": "        try:\n            self._step(state, state.dir * self.step_size)\n        except (ValueError, LinAlgError) as e:\n            # Make robust to errors in intermediate linear algebra ops outside of the\n            # iterative solvers, for example due to non-finite values\n            msg = f\"{type(e)} when computing integrator step ({e}).\"\n            raise ConvergenceError(msg) from e\n", "new": "        self._step(state, state.dir * self.step_size)\n"}]},
     {"id": "c12-step-handler-valueerror-only", "prop": "C12", "rule": "R9", "key": "foreign-exception-escapes", "edits": [{"file": "integrators.py", "old": "        except (ValueError, LinAlgError) as e:\n            # Make robust to errors in intermediate linear algebra ops outside of the", "new": "        except ValueError as e:\n            # Make robust to errors in intermediate linear algebra ops outside of the"}]},
+    {'id': 'c12-error-keeps-partial-trajectory', 'prop': 'C12', 'rule': 'R11', 'edits': [{'file': 'transitions.py', 'old': '        if not integration_error and rng.uniform() < accept_prob:', 'new': '        if rng.uniform() < accept_prob:'}], 'key': 'error-not-rejected'},
+    {'id': 'c12-error-accept-stat-kept', 'prop': 'C12', 'rule': 'R11', 'edits': [{'file': 'transitions.py', 'old': '        stats["accept_stat"] = accept_prob if not integration_error else 0.0\n', 'new': '        stats["accept_stat"] = accept_prob\n'}], 'key': 'accept-stat-after-error'},
 ]
